@@ -77,7 +77,11 @@ func tupleFromArgs(callable bool, args px.List) *TupleType {
 				if !ok {
 					panic(illegalArgumentType(`Tuple[]`, 1, `Type[Integer]`, args.At(1)))
 				}
-				tupleArgs = append(tupleArgs, sz.Parameters()...)
+				// both bounds: a single trailing integer would be read as the minimum, with the number of types as maximum
+				tupleArgs = append(tupleArgs, integerValue(sz.min), WrapDefault())
+				if sz.max != math.MaxInt64 {
+					tupleArgs[len(tupleArgs)-1] = integerValue(sz.max)
+				}
 			}
 			args = WrapValues(tupleArgs)
 			argc = len(tupleArgs)
